@@ -25,9 +25,9 @@ class C10E(enum.Enum):
 
 VALUE_POOL = [0, 1, 2, -1, 7, {"s": 0}, {"s": 1}, {"s": 2}, {"t": [1]}, {"t": []}, {"t": [0, {"s": 1}]}, None,
               {"e": 1}, {"e": 2}, {"e": 3}]
-INVALID = [99, {"s": 9}, {"t": [9]}, -5, False, {"e": 9}]
+INVALID = [99, {"s": 9}, {"t": [9]}, -5, False, {"e": 9}, {"t": [9, 9]}, {"t": [9, 8, 7]}, {"t": [{"s": 9}, 1]}, {"t": [9, 9]}]
 FIELDS = ["state", "status", "st_1", "workflow_state"]
-SHAPES = ["none", "plain", "property", "classlevel", "falsy", "len0"]
+SHAPES = ["none", "plain", "property", "classlevel", "falsy", "len0", "eqnone"]
 
 
 def pyv(v):
@@ -87,6 +87,17 @@ def make_model(sc):
     if shape == "classlevel":
         C = type("C", (), {f: None})
         return C()
+    if shape == "eqnone":
+        # a record that compares equal to None (an unsaved row comparing primary keys): still the user's model
+        class E:
+            def __eq__(self, other):
+                return other is None or other is self
+
+            def __hash__(self):
+                return 1
+        m = E()
+        setattr(m, f, None)
+        return m
     if shape == "falsy":
         class F:
             def __bool__(self):
@@ -381,7 +392,7 @@ def nontrivial(sc, obs):
     falsy = [0, {"s": 0}, {"t": []}]
     if any(o["store"] in falsy for o in obs):
         return True
-    if sc["shape"] in ("falsy", "len0", "property", "classlevel"):
+    if sc["shape"] in ("falsy", "len0", "property", "classlevel", "eqnone"):
         return True
     return any(op[0] in ("set", "ext") and isinstance(op[1], dict) for op in sc["ops"])
 
